@@ -30,3 +30,19 @@ func VerifNewNetwork(ctrl topics.Controller, netCfg networkconfig.NetworkConfig,
 	atomic.StoreInt32(&n.state, stateReady)
 	return n
 }
+
+// VerifAdvertise sets the node's advertised subnet bitmap (what Config.Subnets / UpdateSubnets
+// maintain) to exactly the given subnets.
+func VerifAdvertise(nw network.P2PNetwork, subnets ...int) {
+	n := nw.(*p2pNetwork)
+	bits := make([]byte, 128)
+	for _, s := range subnets {
+		bits[s] = 1
+	}
+	n.subnets = bits
+}
+
+// VerifSubscribeToSubnets runs the real start-up step that joins the advertised subnets.
+func VerifSubscribeToSubnets(nw network.P2PNetwork) error {
+	return nw.(*p2pNetwork).subscribeToSubnets(zap.NewNop())
+}
